@@ -274,7 +274,7 @@ def cmd_check_c20(args):
     cand = [1 + (O.derive(base_seed, "c20variant", i) % 100000) for i in range(max(200, n_var * 4))]
     # greedy: every transformation kind at least once, the STRUCTURAL ones (other shapes of the template table, not only
     # other names) twice when the number of variants allows
-    structural = {"insert_level", "remove_level", "third_base", "leaf_per_base", "declare_intermediate", "type_mapping", "underscore_keys", "digits_in_type_names",
+    structural = {"insert_level", "remove_level", "third_base", "leaf_per_base", "declare_intermediate", "type_mapping", "underscore_keys", "digits_in_type_names", "shortest_key_list_deeper_than_shallowest_leaf",
                   "leaf_only", "separator"}
     trs = {v: set(confgen.make_variant(v).get("transformations", [])) for v in cand}
     variants, count = [0], Counter()
